@@ -55,3 +55,17 @@ package mresults
 //@   site mapupdate r.AllSeries[tsid] #1:
 //@     assert [only-an-unknown-series-is-registered-as-it-is] !haskey(r.AllSeries, tsid)
 //@ end
+
+// C09 (count by/without = number of member series per output group and
+// timestamp): several input group ids fold into one output group; each
+// contributes its members to the SAME member set of (output group, timestamp).
+// A member set is therefore created only where none exists yet — never
+// replaced — and the count is read from these sets.
+//@ func (*MetricsResult).computeAggCount
+//@   props C09
+//@   assumecalleerequires
+//@   site mapupdate seriesIdEntriesMap[seriesId][timestamp] #1:
+//@     assert [a-member-set-is-created-only-where-there-is-none] !haskey(seriesIdEntriesMap[seriesId], timestamp)
+//@   site mapupdate seriesIdEntriesMap[seriesId] #1:
+//@     assert [a-groups-table-is-created-only-where-there-is-none] !haskey(seriesIdEntriesMap, seriesId)
+//@ end
